@@ -32,9 +32,12 @@ def reset_optimizer(env, cost, window=None):
         optimize.reset(cost=cost, window=window)
 
 
-def candidate_positions(env, sp, k):
-    """a position that a locator can return on this grid (symbolic where free)"""
+def candidate_positions(env, sp, k, narrow=False):
+    """a position that a locator can return on this grid (symbolic where free; narrow: within one cell)"""
     if sp["kind"] == "cart":
+        if narrow:
+            return [env.real(f"p{k}_{a}", lo + 2 * sp["spacing"][a], lo + 3 * sp["spacing"][a])
+                    for a, (lo, hi) in enumerate(sp["bounds"])]
         return [env.real(f"p{k}_{a}", lo, hi) for a, (lo, hi) in enumerate(sp["bounds"])]
     if sp["kind"] in ("polar", "spherical"):
         return [0] * sp["dim"]
@@ -52,7 +55,7 @@ def conc_position(sp, k):
 def sample_positions(sp, rng, w, k):
     if sp["kind"] == "cart":
         for a, (lo, hi) in enumerate(sp["bounds"]):
-            w[f"p{k}_{a}"] = lo + (hi - lo) * F(rng.randint(1, 999), 1000)
+            w[f"p{k}_{a}"] = lo + sp["spacing"][a] * (2 + F(rng.randint(1, 999), 1000))
     elif sp["kind"] == "cyl":
         w[f"p{k}_2"] = sp["z0"] + (sp["z1"] - sp["z0"]) * F(rng.randint(1, 999), 1000)
 
@@ -111,7 +114,7 @@ class C19Class(Harness):
                 p = conc_position(sp, k)
                 cands.append((p, env.const(F(3, 4) + F(k, 8))))
             else:
-                p = candidate_positions(env, sp, k)
+                p = candidate_positions(env, sp, k, narrow=refine)
                 cands.append((p, env.real(f"r{k}", F(1, 4) if not refine else 0, 1)))
         if refine:
             env.real("dummy", 0, 0)
